@@ -35,3 +35,10 @@ func simPreferQuit() bool {
 // simulator's goroutine bubble, which the Go runtime refuses for channels made
 // inside a bubble. The janitor simply stays parked.
 func simNewCache(c interface{}) { runtime.SetFinalizer(c, nil) }
+
+// simImportBatch, when non-zero, replaces the 1000-block batch of the import
+// rescan, so that multi-batch rescans happen on short simulated chains.
+var simImportBatch uint64
+
+// SimSetImportBatch sets the rescan batch size (0 restores the built-in one).
+func SimSetImportBatch(n uint64) { simImportBatch = n }
